@@ -58,11 +58,11 @@ func ValidateRepo(repo RepoDescriptor) error {
 	if repo.Description == "" {
 		return fmt.Errorf("empty field: repo description is empty")
 	}
-	for i, c := range repo.Name {
+	for _, c := range repo.Name {
 		if !unicode.IsDigit(c) && !unicode.IsLetter(c) && !unicode.Is(unicode.Hyphen, c) {
 			return fmt.Errorf("invalid name: repo name:%s contains unsupported character \"%s\"",
 				repo.Name,
-				string([]rune(repo.Name)[i]))
+				string(c))
 		}
 	}
 	return nil
